@@ -10,4 +10,6 @@ ASSUMPTIONS = ["no fixture directory is opened; a leftover WAL is TB-sqlite"]
 def run(rep, W, ctx):
     WR.S.s_sql_closed(rep, W)
     WR.c19(rep, W, ctx)
+    # "a data directory written by the pinned release opens ..": the directory the operator names is the one that is opened
+    WR.c17(rep, W, sections={".DIR", ".ARGS", ".PARSERS"}, keyfilter=lambda rl, key: rl.endswith(".DIR") or rl.endswith(".PARSERS") or "data_dir" in key)
     WR.c13_reopen(rep, W, rule="C19.OPEN")     # opening an existing data directory is idempotent and non-destructive
